@@ -217,7 +217,12 @@ class AsyncFIXConnection:
             if self._socket_writer:
                 socket_writer = self._socket_writer
                 socket_writer.close()
-                await socket_writer.wait_closed()
+                try:
+                    await socket_writer.wait_closed()
+                except OSError as why:
+                    # a connection that was lost with an error (reset by peer, broken
+                    #  pipe) reports that error here once more: it is closed all the same
+                    self.log.debug("disconnect: socket closed with %s" % (why,))
                 if self._connection_state <= ConnectionState.DISCONNECTED_BROKEN_CONN:
                     # same, while the socket was closing
                     return
